@@ -15,6 +15,7 @@ import sys
 
 wt, prop, sid, demo = sys.argv[1:5]
 extra_env = dict(a.split("=", 1) for a in sys.argv[5:] if "=" in a)
+NO_CHECK = "--no-check" in sys.argv  # confirm and store only; the check is run later by tools/recheck_seeds.py
 PY = "/venv/bin/python"
 KNOWN_FAIL = {"tests/console/commands/test_example.py::test_command_example",
               "tests/test_network.py::test_export_empty_network", "tests/test_network.py::test_export_network"}
@@ -51,6 +52,19 @@ summary = [ln for ln in out.splitlines() if " passed" in ln]
 meta["suite_with_change"] = summary[-1] if summary else out[-300:]
 meta["suite_ok"] = failed == KNOWN_FAIL and "82 passed" in (summary[-1] if summary else "")
 meta["ran"].append(f"PYTHONPATH={wt} {PY} -m pytest -q -p no:cacheprovider --timeout=900 tests -> {meta['suite_with_change']}")
+
+if NO_CHECK:
+    dst = os.path.join("/verif/seeded", sid)
+    os.makedirs(dst, exist_ok=True)
+    shutil.copy(patch, os.path.join(dst, "patch.diff"))
+    shutil.copy(os.path.join(wt, demo), os.path.join(dst, os.path.basename(demo)))
+    if os.path.exists(os.path.join(wt, "NOTES.md")):
+        shutil.copy(os.path.join(wt, "NOTES.md"), os.path.join(dst, "NOTES.md"))
+    meta["check_cmd"] = f"./check {prop} quick"
+    meta["check_caught"] = None
+    json.dump(meta, open(os.path.join(dst, "meta.json"), "w"), indent=1)
+    print(json.dumps(meta, indent=1))
+    sys.exit(0)
 
 # 2. the registered check against /repo with the change applied
 rc, o = sh("git status --porcelain", cwd="/repo")
